@@ -482,7 +482,7 @@ async def real_case(ctx: Any, sc: dict[str, Any], sockdir: str) -> None:
                 ctx.violation(f"real/{t}/fails-without-cut/{res[1]}", "request() failed although the peer answered completely", {**w, "res": res})
             elif not (res[2] or res[3]):
                 ctx.violation(f"real/{t}/{sc['kind']}/{res[1]}", "connection loss surfaces as something other than a missing response / connection error", {**w, "res": res})
-            elif sc["kind"] in ("eof", "reset") and sc["max_retry"] >= 1:
+            elif sc["kind"] in ("eof", "reset") and sc["max_retry"] >= 1 and cut:
                 ctx.violation(f"real/{t}/no-recovery/{sc['kind']}/{res[1]}", "peer closed/reset the first connection and accepts again, but the client with max_retry>=1 did not obtain the reply", {**w, "res": res})
         if dur > (sc["max_retry"] + 1) * (sc["timeout"] + 1.5) + 2:
             ctx.violation(f"real/{t}/unbounded/{sc['kind']}", "request() over a real socket took longer than the retry/timeout bounds allow", {**w, "dur": dur})
@@ -555,7 +555,7 @@ def run(ctx: Any, params: dict[str, Any]) -> None:
     async def go() -> None:
         for i in range(params["n"]):
             t = ("tcp-lines", "unix-lines")[i % 2]
-            sc = {"transport": t, "idx": i, "cut_at": rng.choice([0, 1, 5, 12, 24, 25, 99]), "kind": rng.choice(["eof", "reset", "silence"]), "timeout": 0.3, "max_retry": rng.choice([1, 2])}
+            sc = {"transport": t, "idx": i, "cut_at": rng.choice([0, 1, 5, 12, 24, 25, 99]), "kind": rng.choice(["eof", "reset", "reset", "silence"]), "timeout": 0.3, "max_retry": rng.choice([0, 1, 2])}  # max_retry 0: the transport that lost its peer is the one that gets closed
             ctx.case(("real", repr(sc)))
             try:
                 await asyncio.wait_for(real_case(ctx, sc, sockdir), 60)
